@@ -90,6 +90,31 @@ def run_all(ctx, runs, exes, events, par=6, timeout=600):
         return list(ex.map(one, runs))
 
 
+def report_extra_tags(ctx, log, out, kf, what, known_key=None):
+    """vf.tlc_trace classifies one tag per rejected line; a line can fail several guards (e.g. the
+    counters of two spaces in one PRCounters event): classify the others here, so that a known
+    finding never hides a different one on the same line."""
+    first, extra = {}, []
+    for n, t in re.findall(r'ROW_REJECTED l=(\d+) tag=([^\s"]+)', log):
+        if int(n) not in first:
+            first[int(n)] = t
+        elif t != first[int(n)] and (int(n), t) not in extra:
+            extra.append((int(n), t))
+    if not extra:
+        return
+    lines = open(out).read().splitlines()
+    seen = set()
+    for n, t in extra:
+        row = json.loads(lines[n - 1]) if 0 < n <= len(lines) else {}
+        row["_tag"], row["_line"] = t, n
+        k = known_key or kf(row)
+        if k is None or k in seen:
+            continue
+        seen.add(k)
+        ctx.violation(k, "%s (line %d of %s)" % (what, n, os.path.basename(out)), out,
+                      extra=lines[n - 1][:1500])
+
+
 def validate_all(ctx, items, spec_dir, module, cfg, keyfn_of, what, stats_tag, par=6, timeout=1200):
     """TLC-validate every projected trace; returns the summed `<stats_tag> [k |-> v, ..]` records."""
     total = {}
@@ -100,28 +125,7 @@ def validate_all(ctx, items, spec_dir, module, cfg, keyfn_of, what, stats_tag, p
                             keyfn=keyfn_of(r), replay_whole=True, key=r.known_key,
                             what="%s (%s)" % (what, r.label), timeout=timeout)
         log = open(os.path.join(ctx.work, "tlc_t_%s.log" % r.label)).read()
-        # vf.tlc_trace classifies one tag per rejected line; a line can fail several guards (e.g. the
-        # counters of two spaces in one PRCounters event): classify the others here, so that a known
-        # finding never hides a different one on the same line.
-        first, extra = {}, []
-        for n, t in re.findall(r'ROW_REJECTED l=(\d+) tag=([^\s"]+)', log):
-            if int(n) not in first:
-                first[int(n)] = t
-            elif t != first[int(n)] and (int(n), t) not in extra:
-                extra.append((int(n), t))
-        if extra:
-            lines = open(out).read().splitlines()
-            kf = keyfn_of(r)
-            seen = set()
-            for n, t in extra:
-                row = json.loads(lines[n - 1]) if 0 < n <= len(lines) else {}
-                row["_tag"], row["_line"] = t, n
-                k = r.known_key or kf(row)
-                if k is None or k in seen:
-                    continue
-                seen.add(k)
-                ctx.violation(k, "%s (%s) (line %d of %s)" % (what, r.label, n, os.path.basename(out)),
-                              out, extra=lines[n - 1][:1500])
+        report_extra_tags(ctx, log, out, keyfn_of(r), '%s (%s)' % (what, r.label), r.known_key)
         st = {}
         m = re.search(stats_tag + r" \[(.*?)\]", log)
         if m:
@@ -160,3 +164,12 @@ def binding_demo(ctx, spec_dir, module, cfg, src, name, mutate, expect_tag):
         raise vf.ToolError("binding demonstration %s: the corrupted trace was not rejected with %s "
                            "(got %s)" % (name, expect_tag, sorted(tags)))
     return ok
+
+
+def mc_parallel(ctx, spec_dir, module, jobs, par=4):
+    """Run several TLC model-checking jobs side by side: jobs = [(cfg, kwargs)]."""
+    def one(job):
+        cfg, kw = job
+        return ctx.tlc_mc(module, cfg, spec_dir=spec_dir, **kw)
+    with cf.ThreadPoolExecutor(par) as ex:
+        return list(ex.map(one, jobs))
